@@ -37,12 +37,15 @@ def footer(size, disk_type, data_offset, length=512, original_size=None, stale=F
     # features: bit 1 is reserved and always set; bit 0 (Temporary) is a documented flag that says nothing about the layout
     features = 3 if (size // 512) % 3 == 0 else 2
     uid = b"\x5a" * 16
+    # the creator names the tool that wrote the file and the geometry is a BIOS hint (capped at 65535 x 16 x 255 and, as here,
+    # stale after a resize); neither takes part in addressing: the current size field alone says how large the disk is
+    creator = (b"vrf ", b"vpc ", b"win ", b"qemu", b"vs  ")[(size // 512) % 5]
     if stale:
         # the copy of the footer at the start of a dynamic disk is a backup for a damaged footer: here it still describes the
         # disk as it was before a resize / re-identification (intact checksum); the footer at the end is the one that counts
         uid = b"\xa5" * 16
         size = max(512, size - 512 * 7)
-    raw = struct.pack(FOOTER, b"conectix", features, 0x00010000, data_offset, 0x2B3C4D5E, b"vrf ", 0x00010000, b"Wi2k", original_size,
+    raw = struct.pack(FOOTER, b"conectix", features, 0x00010000, data_offset, 0x2B3C4D5E, creator, 0x00010000, b"Wi2k", original_size,
                       size, 0x03FF103F, disk_type, 0, uid, 0).ljust(512, b"\0")
     raw = raw[:64] + struct.pack(">I", _checksum(raw, 64)) + raw[68:]
     return raw[:length]
